@@ -167,6 +167,7 @@ class Execution:
         self.last_time = None
         self.after_prev = None
         self.ended = False
+        self.exception = None
         self.started = False
         self.speed = None
         self.stats = collections.Counter()
@@ -320,12 +321,30 @@ class Execution:
         except HarnessError:
             raise
         except Exception as e:
+            import re
             import traceback
             tb = traceback.extract_tb(e.__traceback__)
             where = next((fr for fr in reversed(tb) if "/jellyfysh/" in fr.filename), tb[-1])
-            self.V("exception", "%r raised at %s:%d (%s) in leg %d after %d commits"
-                   % (e, where.filename.split("/jellyfysh/")[-1], where.lineno, where.name, self.legs,
-                      len(self.commits)))
+            rel = where.filename.split("/jellyfysh/")[-1]
+            files = sorted(set(fr.filename.split("/jellyfysh/")[-1] for fr in tb if "/jellyfysh/" in fr.filename))
+            # A SchedulerError because a new candidate lies a few ulps before the last returned time is a float tie
+            # (e.g. a hard-core contact at distance 0 evaluated as -6e-16), not an ordering defect.
+            tie = False
+            if type(e).__name__ == "SchedulerError":
+                nums = re.findall(r"event time ([0-9.eE+-]+|inf)", str(e))
+                if len(nums) == 2:
+                    try:
+                        a, b = float(nums[0]), float(nums[1])
+                        tie = abs(a - b) <= 1e-12 * max(1.0, abs(a))
+                    except ValueError:
+                        pass
+            self.exception = {"type": type(e).__name__, "file": rel, "files": files, "function": where.name,
+                              "tie": tie}
+            key = "exception-tie" if tie else "exception:" + rel
+            self.V(key, "%r raised at %s:%d (%s) in leg %d after %d commits"
+                   % (e, rel, where.lineno, where.name, self.legs, len(self.commits)))
+        if "C17" in self.mon:
+            self.check_c17_end()
         return self
 
     # ---- per leg ----------------------------------------------------------------------------------------------------
@@ -645,6 +664,65 @@ class Execution:
             if any(abs(b) > 1e-9 * max(1.0, L[d]) for d, b in enumerate(bary)):
                 self.V("C12:barycentre", "composite object %d: stored position advanced to the event time is off the "
                        "barycentre of its point masses by %r after %s" % (r, bary, name))
+
+    # ---- C17 --------------------------------------------------------------------------------------------------------
+    def check_c17_end(self):
+        """Evaluated after the run: sampling times, written states, number of samples, end of run.
+        self.info["c17"] = {"interval": float, "zero": bool, "end": float}"""
+        from fractions import Fraction as Fr
+        from jellyfysh.event_handler.abstracts import SamplingEventHandler, EndOfRunEventHandler
+        p = self.info.get("c17")
+        if not p:
+            raise HarnessError("C17 monitor needs the sampling parameters of the configuration")
+        delta, zero, end = p["interval"], p["zero"], p["end"]
+        if not self.ended:
+            if self.exception is None:
+                self.stats["c17_not_ended"] += 1
+            return
+        eor = divmod(end, 1.0)
+        last = self.commits[-1]
+        if not last[0].startswith("FinalTimeEndOfRunEventHandler") and "EndOfRun" not in last[0]:
+            self.V("C17:last-commit", "the run ended but the last committed event is %s at %r" % (last[0], last[2]))
+        elif last[2] != eor:
+            self.V("C17:end-time", "end-of-run committed at %r, configured end time %r = %r" % (last[2], end, eor))
+        for name, tag, t, _ in self.commits:
+            if t is not None and (t[0], t[1]) > eor:
+                self.V("C17:after-end", "%s committed at %r after the end of the run %r" % (name, t, eor))
+                break
+        samples = [w for w in self.writes if w[1].startswith(("FixedIntervalSamplingEventHandler",))
+                   or "SamplingEventHandler" in w[1]]
+        fd = Fr(delta)
+        ulp = Fr(math.ulp(1.0 + delta))
+        for k, (oh, hname, t, snap) in enumerate(samples, start=1):
+            nominal = fd * (k - 1 if zero else k)
+            got = Fr(t[0]) + Fr(t[1])
+            if abs(got - nominal) > k * ulp:
+                self.V("C17:sample-time", "sample %d of %s taken at %r, nominal time %s (interval %r, first at zero: %r)"
+                       % (k, hname, t, float(nominal), delta, zero))
+            if snap is not None:
+                for ident, (pos, vel, ts) in snap.items():
+                    if vel is not None and ts != t:
+                        self.V("C17:not-time-sliced", "sample %d at %r: moving unit %r is written with time stamp %r "
+                               "(position %r is not the position at the sample time)" % (k, t, ident, ts, pos))
+                        break
+        # number of samples: nominal times strictly before the end (ties within rounding may go either way)
+        fend = Fr(end)
+        lo = hi = 0
+        k = 0
+        while True:
+            k += 1
+            nominal = fd * (k - 1 if zero else k)
+            if nominal > fend + k * ulp:
+                break
+            hi += 1
+            if nominal < fend - k * ulp:
+                lo += 1
+            if k > 100000:
+                break
+        if not lo <= len(samples) <= hi:
+            self.V("C17:sample-count", "%d samples written, %d..%d sampling times lie before the end %r (interval %r, "
+                   "first at zero: %r)" % (len(samples), lo, hi, end, delta, zero))
+        self.stats["c17_samples"] += len(samples)
 
     # -----------------------------------------------------------------------------------------------------------------
     def outcome(self):
